@@ -249,6 +249,31 @@ func (g *Gen) sMultiAssign() []Stmt {
 		return nil
 	}
 	g.feat("multi-assign")
+	if g.chance(3) {
+		// the manual's example: in `i, t[i] = i + 1, v` the i of t[i] is evaluated
+		// before i is assigned (all target subexpressions and all values are
+		// evaluated before any assignment); the targets are distinct locations, so
+		// the order of the assignments themselves is not observable
+		t := g.fresh("q")
+		g.feat("multi-assign-aliased-index")
+		pre := Loc1(t, Tab(FV(I(10)), FV(I(20)), FV(I(30)), FV(I(40)), FV(I(50))))
+		idx := g.fresh("ix")
+		var st Stmt
+		switch g.n(4) {
+		case 0:
+			st = &Assign{Targets: []Expr{N(idx), Ix(N(t), N(idx))}, Exprs: []Expr{B("+", N(idx), I(1)), g.immune(KInt)}}
+		case 1:
+			st = &Assign{Targets: []Expr{Ix(N(t), N(idx)), N(idx)}, Exprs: []Expr{g.immune(KInt), B("+", N(idx), I(2))}}
+		case 2:
+			// the table variable itself is replaced in the same statement
+			st = &Assign{Targets: []Expr{N(t), Ix(N(t), N(idx))}, Exprs: []Expr{Tab(FV(I(7))), g.immune(KInt)}}
+		default:
+			st = &Assign{Targets: []Expr{N(idx), Ix(N(t), B("+", N(idx), I(1))), Ix(N(t), N(idx))}, Exprs: []Expr{I(4), S("a"), S("b")}}
+		}
+		old := g.fresh("old")
+		return []Stmt{pre, Loc1(old, N(t)), Loc1(idx, g.smallInt(1, 3)), st,
+			Emit(N(idx), Ix(N(old), 1), Ix(N(old), 2), Ix(N(old), 3), Ix(N(old), 4), Ix(N(old), 5), U("#", N(t)))}
+	}
 	if g.chance(2) {
 		return []Stmt{&Assign{Targets: []Expr{ref(a), ref(b)}, Exprs: []Expr{ref(b), ref(a)}}}
 	}
